@@ -210,7 +210,7 @@ let handle (cmd : ostring) (args : ostring list) : ostring =
                        | LServerHs -> "SERVER_HANDSHAKE_TRAFFIC_SECRET" | LClientApp -> "CLIENT_TRAFFIC_SECRET_0" | LServerApp -> "SERVER_TRAFFIC_SECRET_0"
                        | LServerEarly -> "SERVER_EARLY_TRAFFIC_SECRET" | LOther -> "OTHER" in
       String.concat "," (List.map (fun k -> lab k.s_label ^ ":" ^ hex_of_bytes_strict k.s_random ^ ":" ^ (match k.s_value with Some v -> hex_of_bytes_strict v | None -> "!"))
-                           (x_keylog (bytes_of_hex text)))
+                           (x_keylog (if text = "-" then [] else bytes_of_hex text)))
   | "cli", [toks] ->
       let tok_of t = if t = "P" then TP else if t = "M" then TM else if t = "F" then TFlag else TVal (bytes_of_hex (String.sub t 1 (String.length t - 1))) in
       show_result (fun ((ports, pm), keep) -> String.concat "," (List.map hex_of_z ports) ^ ";" ^
